@@ -61,8 +61,12 @@ pub enum SqlTarget {
     Group { g: u64, ga: u64, j: u64 },
     /// j-th SQL write of the marks phase of the batch whose `batch.before_marks` count is `m`
     Marks { m: u64, c: u64, j: u64 },
-    /// the COMMIT of the batch whose `batch.before_commit` count is `c` (real failure through sqlite's commit hook)
+    /// the COMMIT of the batch whose `batch.before_commit` count is `c` (real failure through sqlite's commit hook:
+    /// sqlite turns the COMMIT into a ROLLBACK)
     CommitHook { c: u64 },
+    /// a deferred foreign-key violation planted by the first SQL write of the batch (groups numbered > `g`,
+    /// before the commit numbered `c`): the real COMMIT fails and sqlite keeps the transaction open
+    CommitFk { g: u64, c: u64 },
 }
 
 pub struct SqlFault {
@@ -138,6 +142,21 @@ fn on_commit(state: &Arc<Mutex<SqlFault>>) -> bool {
     false
 }
 
+fn on_fk(state: &Arc<Mutex<SqlFault>>) -> bool {
+    let c = fault::counts();
+    let mut st = state.lock().unwrap();
+    if st.fired {
+        return false;
+    }
+    if let SqlTarget::CommitFk { g, c: cc } = st.target {
+        if cnt(&c, "batch.group.before") > g && cnt(&c, "batch.before_commit") == cc {
+            st.fired = true;
+            return true;
+        }
+    }
+    false
+}
+
 const TRIGGER_TABLES: &[(&str, &[&str])] = &[
     ("_node", &["INSERT", "UPDATE", "DELETE"]),
     ("_edge", &["INSERT", "DELETE"]),
@@ -156,13 +175,20 @@ impl Writeable for InstallFaults {
             let name: String = ctx.get(0)?;
             Ok(on_sql(&st, &name))
         })?;
+        let st = self.0.clone();
+        conn.create_scalar_function("verif_fk", 0, FunctionFlags::SQLITE_UTF8, move |_ctx| Ok(on_fk(&st)))?;
+        conn.execute_batch(
+            "CREATE TEMP TABLE IF NOT EXISTS vf_parent(id INTEGER PRIMARY KEY);
+             CREATE TEMP TABLE IF NOT EXISTS vf_child(p INTEGER REFERENCES vf_parent(id) DEFERRABLE INITIALLY DEFERRED);",
+        )?;
         for (table, ops) in TRIGGER_TABLES {
             for op in *ops {
                 let tag = format!("{}.{}", &table[1..], op.to_lowercase());
                 conn.execute(
                     &format!(
                         "CREATE TEMP TRIGGER IF NOT EXISTS vf{}_{} BEFORE {} ON {} BEGIN \
-                         SELECT RAISE(ABORT, 'verif sql fault') WHERE verif_hit('{}'); END",
+                         SELECT RAISE(ABORT, 'verif sql fault') WHERE verif_hit('{}'); \
+                         INSERT INTO vf_child(p) SELECT -1 WHERE verif_fk(); END",
                         table,
                         op.to_lowercase(),
                         op,
@@ -824,6 +850,10 @@ impl Inst {
                 Point::CommitHook => SqlTarget::CommitHook {
                     c: cnt(&c, "batch.before_commit") + 2,
                 },
+                Point::Commit if !fault_spec.abort => SqlTarget::CommitFk {
+                    g: cnt(&c, "batch.group.before"),
+                    c: cnt(&c, "batch.before_commit") + 1,
+                },
                 _ => SqlTarget::None,
             };
         }
@@ -834,8 +864,14 @@ impl Inst {
         };
         match fault_spec.point {
             Point::Begin => fault::arm("batch.before_begin", cnt(&c, "batch.before_begin") + 1, action),
+            // statement error of the marks write: injected inside DailyMutations::write (real error path of the caller);
+            // crash: the point before the marks write
+            Point::Marks if !fault_spec.abort => fault::arm("marks.write", cnt(&c, "marks.write") + 2, action),
             Point::Marks => fault::arm("batch.before_marks", cnt(&c, "batch.before_marks") + 2, action),
-            Point::Commit => fault::arm("batch.before_commit", cnt(&c, "batch.before_commit") + 2, action),
+            // a failing COMMIT is a real one (deferred foreign key, see CommitFk); crash: the point before COMMIT
+            Point::Commit if fault_spec.abort => {
+                fault::arm("batch.before_commit", cnt(&c, "batch.before_commit") + 2, action)
+            }
             Point::GroupBefore(i) => {
                 fault::arm("batch.group.before", cnt(&c, "batch.group.before") + 1 + i, action)
             }
@@ -882,11 +918,11 @@ impl Inst {
         };
         // a fault of the repo-side facility fired iff the point is no longer armed and the batch failed;
         // the trace is the reference
-        if matches!(
-            fault_spec.point,
-            Point::Begin | Point::Marks | Point::Commit
-        ) {
+        if matches!(fault_spec.point, Point::Begin | Point::Marks) {
             fired = errors.iter().any(|m| m.contains("verif fault injected"));
+        }
+        if fault_spec.point == Point::Commit {
+            fired = fired && errors.iter().any(|m| m.contains("FOREIGN KEY"));
         }
         let c2 = fault::counts();
         let batches = cnt(&c2, "batch.before_begin") - begin0;
